@@ -413,6 +413,10 @@ inline void supervisor_main() {
         bool proved = S.on_stuck ? S.on_stuck(key, what, wit) : false;
         if (S.supervisor_stop.load() || S.progress.load(MO) != p) { last_change = mono_ns(); continue; }
         wit = JObj().raw("ledger", wit).raw("os_threads", osth).str();
+        if (getenv("VH_STUCK_PAUSE")) {     // debugging aid: keep the stuck process around for gdb
+            fprintf(stderr, "[vh] STUCK pid=%d key=%s %s\n", getpid(), key.c_str(), wit.c_str());
+            for (;;) pause();
+        }
         if (proved) {
             violation(key, what, wit);
             S.status = "ok";
